@@ -67,6 +67,10 @@ VALUE_CLASSES = {
                             datetime.datetime(2020, 1, 2, 3, 4, 5, tzinfo=TZ(TD(hours=-12))),
                             datetime.datetime(2020, 1, 2, 3, 4, 5, tzinfo=TZ(TD(minutes=-30), 'HALF'))],
     'datetime_tzname_none': [datetime.datetime(2020, 1, 2, 3, 4, 5, tzinfo=NoNameTZ())],
+    # tuple-valued cells: what set_type(type='yearmonth' / 'geopoint') produces, or a plain tuple in an `any` field
+    'tuple': [(2020, 5), ('a', 'b'), (decimal.Decimal('34.5'), decimal.Decimal('-12.25'))],
+    'subsecond_offset': [datetime.datetime(2020, 1, 2, 3, 4, 5, tzinfo=TZ(TD(minutes=19, seconds=32, microseconds=130000))),
+                         datetime.datetime(2020, 1, 2, 3, 4, 5, tzinfo=TZ(TD(seconds=-0.5)))],
     'subsecond': [datetime.datetime(2020, 1, 2, 3, 4, 5, us) for us in (1, 42, 99, 100, 999, 1000, 50000, 123456, 999999)] +
                  [datetime.time(1, 2, 3, us) for us in (7, 80, 900, 500000, 999999)] +
                  [datetime.datetime(2020, 1, 2, 3, 4, 5, 10, tzinfo=TZ(TD(hours=-3)))],
@@ -82,13 +86,53 @@ VALUE_CLASSES = {
 }
 COMMON = ['decimal', 'bigint', 'float', 'text', 'date', 'time', 'datetime_naive', 'datetime_utc',
           'datetime_pos_offset', 'datetime_neg_offset', 'duration', 'nested', 'set', 'null', 'subsecond']
-RARE = ['datetime_tzname_none', 'tag_like_object']
+RARE = ['datetime_tzname_none', 'tag_like_object', 'subsecond_offset', 'tuple']
 
 
 def gen_cases(tier, seed):
     n = {'quick': 320, 'thorough': 8000}[tier]
     for i in range(n):
         yield {'family': 'history', 'idx': i, 'seed': seed}
+    # a package without any resource (metadata only) is a package all the same
+    for i in range(2):
+        yield {'family': 'no_resources', 'idx': 10 ** 6 + i, 'seed': seed}
+
+
+def run_no_resources(case):
+    d = lab.df()
+    counters = {'resumed_runs': 0, 'rows_compared': 0}
+    cov = {'value_class': {}, 'history': {'no_resources/%d' % (case['idx'] % 2): 1}}
+    viol = []
+    calls = {'n': 0}
+
+    def meta(package):
+        calls['n'] += 1
+        package.pkg.descriptor['title'] = 'T'
+        yield package.pkg
+        yield from package
+
+    def flow():
+        pre = [d.update_package(name='meta-only')] + ([meta] if case['idx'] % 2 else [])
+        return pre + [d.checkpoint('m', checkpoint_path='cpm'), d.update_package(licence='x')]
+    first = lab.run(flow(), validate=True)
+    second = lab.run(flow(), validate=True)
+    cfg = {'family': 'no_resources', 'function_step_before_checkpoint': bool(case['idx'] % 2)}
+    if not first.ok:
+        return dict(nontrivial=False, violations=[], cov=cov, counters=counters,
+                    inconclusive='first run of a resource-less package failed: %s' % first.errstr())
+    counters['resumed_runs'] += 1
+    counters['rows_compared'] += 1
+    if not second.ok:
+        viol.append({'kind': 'run_failed', 'mech': 'run_failed/no_resources', 'config': cfg,
+                     'msg': '%r: the run resuming from the checkpoint of a resource-less package failed: %s' % (cfg, second.errstr())})
+    else:
+        if second.dp != first.dp:
+            viol.append({'kind': 'descriptor', 'mech': 'descriptor/no_resources', 'config': cfg,
+                         'msg': '%r: resumed descriptor %r, first run %r' % (cfg, second.dp, first.dp)})
+        if case['idx'] % 2 and calls['n'] != 1:
+            viol.append({'kind': 'upstream_executed', 'mech': 'counters/no_resources', 'config': cfg,
+                         'msg': '%r: the step before the checkpoint ran %d times over two runs' % (cfg, calls['n'])})
+    return dict(nontrivial=True, violations=viol, cov=cov, counters=counters, sample={'config': cfg})
 
 
 def key_orders(v):
@@ -114,6 +158,8 @@ def val_eq(a, b):
 
 
 def run_case(case):
+    if case['family'] == 'no_resources':
+        return run_no_resources(case)
     rng = boot.rng(case['seed'], 'C07', case['idx'])
     d = lab.df()
     counters = {'resumed_runs': 0, 'rows_compared': 0}
@@ -347,6 +393,9 @@ def run_case(case):
                     ci = int(badk[1:]) if badk != 'id' else None
                     cls = classes[ci] if ci is not None and ci < len(classes) else 'id'
                     mech = 'value/' + cls
+                    if cls == 'tuple' and isinstance(x[badk], tuple) and isinstance(y.get(badk), list) and \
+                            val_eq(list(x[badk]), y.get(badk)):
+                        mech = 'tuple_cell_becomes_list'        # exactly the JSON array the tuple was written as
                     if cls == 'tag_like_object':
                         # alternative model: an object cell with a key equal to one of the encoding's type tags is decoded
                         # as that typed scalar - reproduced on the cell alone through the library's extended JSON
